@@ -2328,7 +2328,7 @@ func numberCharsWrite(vm *VM, num, chars Term, k Cont, env *Env) *Promise {
 		case Variable:
 			break
 		case Atom:
-			if len(e.String()) != 1 {
+			if len([]rune(e.String())) != 1 {
 				return Error(typeError(validTypeCharacter, e, env))
 			}
 		default:
